@@ -1,6 +1,8 @@
 /-
 Driver for C15.  One case = one PALS workload
-  `pw <self> <minLen> <minIdMilli> <maxMemMB> <plants> <target> <query|->\t<observation>`.
+  `pw <self> <minLen> <minIdMilli> <maxMemMB> <plants> <target> <query|->\t<observation>`
+(or `pt <minLen> <minIdMilli> <plants> <traps> <target> <query>`: the aligner run on a given
+trapezoid list through `AlignFrom`, same statement).
 The kernel is modelled by its contract only, so there is no model output to compare hit by hit;
 what runs here is the executable statement of the property on the implementation's hits:
 
@@ -8,7 +10,10 @@ what runs here is the executable statement of the property on the implementation
            Score ≤ `globalScore (palsS SameCost DiffCost)` of the two hit regions (the proved
            oracle, `Biogo.Properties.C15.palsGlobal_opt`); DiffCost·editDist(regions) ≤
            RMatchCost·|B|·Error (the "edit distance is bounded by the reported error" clause,
-           evaluated directly with the proved edit-distance oracle);
+           evaluated directly with the proved edit-distance oracle); the consequences of the
+           kernel contract (`Spec.PalsKernel.consistent`: 0 ≤ Score ≤ min(lengths) − DiffCost·indel,
+           alen + blen − 2·Score = 7g + 8x with g ≥ indel of the same parity, both ends of the hit
+           on diagonals within [LowDiagonal, HighDiagonal]);
  model     the acceptance function `accept` of the model holds for the hit and the reported
            Error is `errNum/(RMatchCost·blen)` (disagreement → `diff`);
  workload  every planted pair is recovered by one hit on the right strand that overlaps more
@@ -19,11 +24,15 @@ Core-only.
 import Biogo.Go.Wire
 import Biogo.Model.PalsOracle
 import Biogo.Model.PalsOptimise
+import Biogo.Spec.PalsKernel
+import Biogo.Spec.Filter
+import Biogo.Model.PalsKernel
 import Biogo.Generated.PalsConsts
 
 namespace Biogo.Drive.C15
 open Biogo.Wire Biogo.PalsOracle Biogo.PalsOptimise
-open Biogo.Generated.Pals (SameCost DiffCost RMatchCost)
+open Biogo.Generated.Pals (SameCost DiffCost RMatchCost MaxIGap MatchCost BlockCost)
+open Biogo.PalsMerge (Trap)
 
 def lettersOf (s : String) : Array Nat := (s.toList.map Char.toNat).toArray
 
@@ -39,10 +48,14 @@ structure Plant where
   bPos : Nat
   bLen : Nat
   comp : Bool
+  /-- 0: the calibrated class of the first wave (recall always demanded); 1: the boundary class
+      (recall demanded exactly when the pair is guaranteed to be seeded, `guaranteedSeeded`) -/
+  cls : Nat := 0
 
 def parsePlant (s : String) : Option Plant :=
   match (s.splitOn ":").mapM parseNat with
-  | some [a, al, b, bl, c] => some ⟨a, al, b, bl, c == 1⟩
+  | some [a, al, b, bl, c] => some ⟨a, al, b, bl, c == 1, 0⟩
+  | some [a, al, b, bl, c, k] => some ⟨a, al, b, bl, c == 1, k⟩
   | _ => none
 
 def parsePlants (s : String) : Option (List Plant) :=
@@ -101,6 +114,9 @@ def hitWhy (minLen minIdMilli : Int) (target working : Array Nat) (o : HitObs) :
           let d : Int := editDist a b
           if DiffCost * d * tenTo12 > RMatchCost * h.blen * (e12 + 1) then
             some s!"edit-distance-not-bounded-by-reported-error {showHit o} edit={d} e12={e12}"
+          else if !Biogo.Spec.PalsKernel.consistent SameCost DiffCost ⟨h, o.lowDiag, o.highDiag⟩ then
+            -- consequences of the kernel contract (`Properties/C15_kernel.lean`)
+            some s!"kernel-contract-inconsistent {showHit o} diagonals={o.lowDiag}..{o.highDiag}"
           else none
 
 /-- the model's acceptance decision and error formula for a reported hit; `none` = agrees -/
@@ -118,6 +134,45 @@ def modelWhy (minLen minIdMilli : Int) (o : HitObs) : Option String :=
       if lhs > 2 * den || lhs < -2 * den then some s!"model-error-formula {showHit o} e12={e12} errNum={h.errNum}"
       else none
 
+/-- do `a[ai …]` and `b[bi …]`, `len` columns along one diagonal, contain a window of `n` columns
+    with at most `e` mismatches? -/
+def windowOn (a b : Array Nat) (n e ai bi len : Nat) : Bool :=
+  if len < n then false
+  else
+    let pm := Biogo.Spec.Filter.prefixLoop a b len ai bi 0 #[0]
+    !(Biogo.Spec.Filter.windowsLoop pm n e (len + 1 - n) 0 []).isEmpty
+
+/-- **the guaranteed class**: the two copies of the planted pair (copy B taken in the sequence the
+    strand's `Align` works on) contain an ε-match of the filter parameters `Optimise` chose —
+    `n = MinMatch` columns on one diagonal (shifted by at most 12 against the copies' starts) with
+    at most `e = MaxError` substitutions, inside both copies.  By `filter_complete`,
+    `merger_covers_hits` and `seed_prescreen_passes` (`epsmatch_inside_trapezoid`,
+    `Properties/C15_chain.lean`) such a pair lies in a trapezoid at least `k` high, which
+    `AlignTraps` hands to the kernel. -/
+def guaranteedSeeded (target working : Array Nat) (n e : Nat) (aPos aLen bPos bLen : Nat) : Bool :=
+  (List.range 25).any fun s =>
+    -- diagonal shift s - 12: copy A from offset max(0, 12 - s)… against copy B from max(0, s - 12)…
+    let da := 12 - s
+    let db := s - 12
+    if da ≥ aLen || db ≥ bLen then false
+    else
+      let len := min (aLen - da) (bLen - db)
+      aPos + da + len ≤ target.size && bPos + db + len ≤ working.size &&
+      windowOn target working n e (aPos + da) (bPos + db) len
+
+/-- is recall of this planted pair demanded?  Class 0: always.  Class 1: exactly when the pair is
+    guaranteed to be seeded (in a self comparison: in either mirror image). -/
+def demanded (self : Bool) (target query working1 : Array Nat) (n e : Nat) (p : Plant) : Bool :=
+  if p.cls == 0 then true
+  else
+    let qLen := query.size
+    if p.comp then
+      guaranteedSeeded target working1 n e p.aPos p.aLen (qLen - (p.bPos + p.bLen)) p.bLen ||
+      (self && guaranteedSeeded target working1 n e p.bPos p.bLen (qLen - (p.aPos + p.aLen)) p.aLen)
+    else
+      guaranteedSeeded target query n e p.aPos p.aLen p.bPos p.bLen ||
+      (self && guaranteedSeeded target query n e p.bPos p.bLen p.aPos p.aLen)
+
 /-- is the planted pair recovered by this hit?  B coordinates of strand-1 hits are mapped back
     to the query's own coordinates.  In a self comparison only one of the two mirror images
     of a pair is searched, so the roles of the copies may be exchanged. -/
@@ -129,8 +184,80 @@ def recovers (self : Bool) (qLen : Nat) (p : Plant) (o : HitObs) : Bool :=
   let mirror := self && 2 * overlap h.abpos h.aepos p.bPos p.bLen > p.bLen && 2 * overlap qs qe p.aPos p.aLen > p.aLen
   strandOK && (direct || mirror)
 
+/-! ### the kernel model run on the trapezoids the implementation's aligner was given -/
+
+def parseTrap (s : String) : Option Trap :=
+  match (s.splitOn ":").mapM parseInt with
+  | some [t, b, l, r] => some ⟨t, b, l, r⟩
+  | _ => none
+
+def parseTraps (s : String) : Option (List Trap) :=
+  if s == "-" then some [] else (s.splitOn ";").mapM parseTrap
+
+def kernelCosts : Biogo.PalsKernel.Costs := Biogo.Spec.PalsKernel.palsCosts
+
+def hitLe (a b : Hit) : Bool :=
+  if a.abpos ≠ b.abpos then a.abpos < b.abpos
+  else if a.bbpos ≠ b.bbpos then a.bbpos < b.bbpos
+  else if a.aepos ≠ b.aepos then a.aepos < b.aepos
+  else if a.bepos ≠ b.bepos then a.bepos < b.bepos
+  else a.score ≤ b.score
+
+/-- `AlignTraps` of the model (kernel, suppression with stable sorts) and `dropSelfMatches`:
+    the emitted hits and the returned ones -/
+def modelAlign (target working : Array Nat) (traps : List Trap) (k minLen minIdMilli : Int) (dropSelf : Bool) :
+    List Biogo.PalsKernel.KHit × List Hit :=
+  let em := Biogo.PalsKernel.emitted kernelCosts ⟨target, working⟩ traps k minLen (1000 - minIdMilli) 1000
+  let kept := suppress (fun l => l.mergeSort fun a b => a.abpos ≤ b.abpos) (fun l => l.mergeSort fun a b => a.aepos ≤ b.aepos)
+    (em.map (·.h))
+  let kept := if dropSelf then kept.filter (fun h => !(h.abpos == h.bbpos && h.aepos == h.bepos)) else kept
+  (em, kept)
+
+/-- model against implementation for one strand; `none` = the same hits (coordinates, score,
+    diagonals, error numerator) -/
+def kernelWhy (strand : Nat) (target working : Array Nat) (traps : List Trap) (k minLen minIdMilli : Int)
+    (dropSelf : Bool) (impl : List HitObs) : Option String :=
+  let (em, kept) := modelAlign target working traps k minLen minIdMilli dropSelf
+  let a := (impl.map (·.h)).mergeSort hitLe
+  let b := kept.mergeSort hitLe
+  if a != b then
+    some s!"kernel-model strand={strand} hits={";".intercalate (b.map fun h => s!"{h.abpos}:{h.aepos}:{h.bbpos}:{h.bepos}:{h.score}")}"
+  else
+    match impl.find? (fun o => !em.any (fun m => m.h == o.h && m.lowDiagonal == o.lowDiag && m.highDiagonal == o.highDiag)) with
+    | some o => some s!"kernel-model-diagonals {showHit o} {o.lowDiag}..{o.highDiag}"
+    | none => none
+
+/-- rows × columns the kernel has to fill at most once per trapezoid, a bound on the model's work -/
+def trapWork (traps : List Trap) : Int :=
+  traps.foldl (fun acc t => acc + (t.top - t.bottom + 1) * (t.right - t.left + 1 + 40)) 0
+
+/-- Recogniser of known finding **K6** (one alignment per row range inside a trapezoid).
+    `alignRecursion` splits a trapezoid only by rows: after the alignment through its middle row
+    it recurses into the rows above and below, so a second repeat whose query rows overlap those
+    of a reported alignment *in the same trapezoid* (another diagonal of a very wide trapezoid —
+    the short-seed regime, where the filter threshold is 1 and everything merges) is never
+    aligned.  A missed planted pair is K6 when, in one of its orientations, an implementation
+    trapezoid of that strand contains its diagonal and overlaps its query rows, and a reported hit
+    of that strand that does not recover it lies in the same trapezoid on overlapping query rows. -/
+def isK6 (self : Bool) (qLen : Nat) (traps : List Trap) (hits : List HitObs) (p : Plant) : Bool :=
+  let strand : Nat := if p.comp then 1 else 0
+  let hs := hits.filter fun o => o.strand == strand && !recovers self qLen p o
+  let bsD : Int := if p.comp then (qLen : Int) - (p.bPos + p.bLen : Nat) else p.bPos
+  let bsM : Int := if p.comp then (qLen : Int) - (p.aPos + p.aLen : Nat) else p.aPos
+  let orients : List (Int × Int × Int) :=
+    [((p.aPos : Int), bsD, bsD + p.bLen)] ++ (if self then [((p.bPos : Int), bsM, bsM + p.aLen)] else [])
+  orients.any fun (tA, bs, be) =>
+    let d := bs - tA
+    traps.any fun t =>
+      decide (t.left - 12 ≤ d) && decide (d ≤ t.right + 12) && decide (t.bottom ≤ be) && decide (bs ≤ t.top) &&
+      hs.any fun o =>
+        let hd := o.h.bbpos - o.h.abpos
+        decide (t.left - 12 ≤ hd) && decide (hd ≤ t.right + 12) &&
+        decide (t.bottom ≤ o.h.bepos) && decide (o.h.bbpos ≤ t.top) &&
+        decide (o.h.bbpos < be) && decide (bs < o.h.bepos)
+
 def handleCase (self : Bool) (minLen minIdMilli maxMemMB : Int) (plants : List Plant) (target query : Array Nat)
-    (obs : String) : Verdict :=
+    (obs : String) (givenTraps : Option (List Trap) := none) : Verdict :=
   let baseTags := [if self then "self" else "non-self"] ++
     (if plants.isEmpty then ["no-plant"] else []) ++
     (if plants.any (·.comp) then ["plant-revcomp"] else []) ++
@@ -153,8 +280,18 @@ def handleCase (self : Bool) (minLen minIdMilli maxMemMB : Int) (plants : List P
   else if obs.startsWith "err:" || obs.startsWith "panic" || obs == "hang" then
     fail s!"implementation {obs.take 120}" baseTags
   else
-  match tokens obs with
-  | [p, o, hs] =>
+  match (match tokens obs with
+    | [p, o, hs] => some (p, o, hs, givenTraps.map fun t => (t, ([] : List Trap)))
+    | [p, o, hs, ts] =>
+      if !ts.startsWith "T=" then none
+      else match (ts.drop 2).toString.splitOn "|" with
+        | [t0, t1] =>
+          match parseTraps t0, parseTraps t1 with
+          | some t0, some t1 => some (p, o, hs, some (t0, t1))
+          | _, _ => none
+        | _ => none
+    | _ => none) with
+  | some (p, o, hs, trapsObs) =>
     if !(p.startsWith "P=" && o.startsWith "O=" && hs.startsWith "H=") then bad "observation" else
     match parseNats (p.drop 2).toString, parseInts (o.drop 2).toString, parseHits (hs.drop 2).toString with
     | some [k, n, e, off], some [ow, od], some hits =>
@@ -175,18 +312,55 @@ def handleCase (self : Bool) (minLen minIdMilli maxMemMB : Int) (plants : List P
         -- trivial self match
         let trivial := self && hits.any fun o => o.strand == 0 && o.h.abpos == o.h.bbpos && o.h.aepos == o.h.bepos
         if trivial then fail "trivial-self-match-reported" tags else
-        match plants.find? (fun p => !hits.any (recovers self query.size p)) with
-        | some p => fail s!"planted-repeat-not-recovered {p.aPos}:{p.aLen}:{p.bPos}:{p.bLen}:{if p.comp then 1 else 0}" tags
-        | none =>
+        let boundary := plants.filter (·.cls == 1)
+        let tags := tags ++
+          (if boundary.any (fun p => demanded self target query working1 n e p) then ["boundary-guaranteed"] else []) ++
+          (if boundary.any (fun p => !demanded self target query working1 n e p) then
+             (if boundary.any (fun p => !demanded self target query working1 n e p && hits.any (recovers self query.size p))
+              then ["boundary-unguaranteed-recovered"] else []) ++
+             (if boundary.any (fun p => !demanded self target query working1 n e p && !hits.any (recovers self query.size p))
+              then ["boundary-unguaranteed-missed"] else [])
+           else [])
+        let missed := plants.filter fun p => demanded self target query working1 n e p && !hits.any (recovers self query.size p)
+        let showPlant := fun (p : Plant) => s!"{p.aPos}:{p.aLen}:{p.bPos}:{p.bLen}:{if p.comp then 1 else 0}:{p.cls}"
+        let k6 := fun (p : Plant) => match trapsObs with
+          | some (t0, t1) => isK6 self query.size (if p.comp then t1 else t0) hits p
+          | none => false
+        match missed.find? (fun p => !k6 p), missed with
+        | some p, _ => fail s!"planted-repeat-not-recovered {showPlant p}" tags
+        | none, p :: _ => known "K6" s!"planted-repeat-shares-query-rows-with-a-reported-hit-in-one-trapezoid {showPlant p}" tags
+        | none, [] =>
           match hits.findSome? (modelWhy minLen minIdMilli) with
           | some w => diff w tags
           | none =>
+            -- the trapezoids handed to the aligner lie within the query rows (hypothesis of the kernel theorems;
+            -- `merger_output_within_rows`, `merger_output_wellformed`)
+            let outside := match trapsObs, givenTraps with
+              | some (t0, t1), none => (t0 ++ t1).find? fun (t : Trap) => !(decide (0 ≤ t.bottom) && decide (t.bottom ≤ t.top) && decide (t.top ≤ (query.size : Int)))
+              | _, _ => none
+            match outside with
+            | some t => fail s!"trapezoid-outside-the-query-rows {t.top}:{t.bottom}:{t.left}:{t.right}" tags
+            | none =>
+            -- the kernel model on the trapezoids the implementation's aligner was given
+            let (kw, tags) : Option String × List String :=
+              match trapsObs with
+              | none => (none, tags)
+              | some (t0, t1) =>
+                if trapWork t0 + trapWork t1 > 60000000 then (none, tags ++ ["kernel-model-skipped"])
+                else
+                  let w0 := kernelWhy 0 target query t0 k minLen minIdMilli self (hits.filter (·.strand == 0))
+                  let w1 := if givenTraps.isSome then none
+                            else kernelWhy 1 target working1 t1 k minLen minIdMilli false (hits.filter (·.strand == 1))
+                  ((w0 <|> w1), tags ++ ["kernel-model"])
+            match kw with
+            | some w => diff w tags
+            | none =>
             if optAgree then ok tags
             else diff ("optimise-model=" ++ (match optModel with
               | some q => s!"{q.wordSize},{q.minMatch},{q.maxError},{q.tubeOffset}"
               | none => "none")) tags
     | _, _, _ => bad "observation"
-  | _ => bad "observation"
+  | none => bad "observation"
 
 /-- `po`: Optimise alone — the model of the parameter search against the implementation, and the
     statement "accepted parameters have a positive q-gram threshold and, with the default
@@ -222,7 +396,7 @@ def handleOptimise (tlen qlen minLen mem off : Int) (obs : String) : Verdict :=
     | _, _ => bad "observation"
   | _ => bad "observation"
 
-def ops : List String := ["pw", "po"]
+def ops : List String := ["pw", "po", "pt"]
 
 def handle (line : String) : String :=
   let (inp, obs) := splitCase line
@@ -234,6 +408,13 @@ def handle (line : String) : String :=
       let query := if self then target else lettersOf q
       (handleCase self minLen minId mem plants target query obs).render
     | _, _, _, _, _ => (bad "input").render
+  | ["pt", minLen, minId, plants, traps, t, q] =>
+    -- the aligner on a given trapezoid list (two sequences, forward strand): same statement as `pw`
+    match parseInt minLen, parseInt minId, parsePlants plants, parseTraps traps with
+    | some minLen, some minId, some plants, some traps =>
+      let v := handleCase false minLen minId 64 plants (lettersOf t) (lettersOf q) obs (some traps)
+      ({ v with tags := "given-trapezoids" :: v.tags }).render
+    | _, _, _, _ => (bad "input").render
   | ["po", tlen, qlen, minLen, _minId, mem, off] =>
     match parseInt tlen, parseInt qlen, parseInt minLen, parseInt mem, parseInt off with
     | some tlen, some qlen, some minLen, some mem, some off => (handleOptimise tlen qlen minLen mem off obs).render
